@@ -11,7 +11,7 @@ def check(rep):
     PR.rule_compiles(ctx, rid="C15.SHAPE-COMPILES", strict=False)
     PR.rule_key(ctx, rid="C15.STR-ONLY", mode="str-only")
     PR.rule_renderers(ctx, rid="C15.SALT-EXACT", kinds=("str",))
-    ER.rule_value_keyed_caches(ctx, rid="C15.NO-VALUE-KEYED-CACHE")
+    ER.rule_value_keyed_caches(ctx, rid="C15.NO-VALUE-KEYED-CACHE", modules={"binning/binning.py", "experiment_evaluator.py"})
     ER.rule_call_forwards(ctx, rid="C15.CALL-FORWARDS")
     rep.assume("NOT decided: str(int) beyond CPython's 4300-digit conversion limit; lone surrogates (not in the statement)")
     return ("The codec on the hash path encodes every str; each splitter value enters the key through str() only with no type "
